@@ -172,3 +172,60 @@ Print Assumptions C07_tail_sound.
 Print Assumptions C07_limits_sound.
 Check C07_numbers_cleanup_bg.
 Print Assumptions C07_numbers_cleanup_bg.
+
+(* END TO END, NumbersDirect naming (no rCURRENT: the file being written is r<L>, L = number of closed files).  The file being
+   written is part of the listing the cleanup works on and COUNTS for the first limit; the code raises a first limit of 0 to 1,
+   which is what protects it.  (n, m) = klimd k = (max 1 n0, m) for KeepLogAndCompressedFiles(n0, m) (KeepLogFiles(n0): m = 0,
+   KeepCompressedFiles(m): n0 = 0): in the end exactly the current file and the newest n - 1 closed files (plain, as they
+   were closed) and the next m (complete archives of exactly what the file held) exist; everything older is gone; the current
+   file is never compressed or removed; what survives, read by number, is a suffix of what was written (side conditions: the
+   suffix does not end in .gz, the index of the current file is below 100000 - both shown necessary in Flw/NumDCleanup.v) *)
+Require Import FL.Flw.NumDInv FL.Flw.NumDRun FL.Flw.NumDCleanupStep FL.Flw.NumDCleanupRun FL.Flw.NumDCleanup FL.Flw.NumKillRestart.
+Theorem C07_numbersdirect_cleanup c crit k n m t0 off ops closed cur :
+  numdkcfg c crit k -> klimd k = Some (n, m) -> Forall basic_op ops ->
+  sfx_ok (c_spec c) -> (N.of_nat (length closed) < 100000)%N ->
+  a_run None ops (snd (run (fst (step (sys0 t0 off) (OStart c))) ops)) = Some (closed, cur) ->
+  let f := wfs (s_w (fst (run (sys0 t0 off) (OStart c :: ops ++ [OStop])))) in
+  let L := length closed in let lo := S L - (n + m) in let mid := S L - n in
+  concat closed ++ cur = written ops
+  /\ (forall x, (exists j, lookup f x = Some j) <->
+        (exists i, mid <= i <= L /\ x = rname c i) \/ (exists i, lo <= i < mid /\ x = gname c i))
+  /\ NoDup (dir_names f)
+  /\ lookup f (cname c) = None
+  /\ 1 <= n /\ mid <= L /\ S L - mid <= n /\ mid - lo <= m
+  /\ (forall off', list_log_gz off' (c_spec c) (fixed0 c) f IFNum = Some (listing c lo mid (S L)))
+  /\ (forall off', get_highest_index off' (c_spec c) (fixed0 c) f <> None)
+  /\ (forall i, mid <= i < L -> lookup f (gname c i) = None /\
+        exists fl, file_of f (rname c i) = Some fl /\ fdata fl = nth i closed [] /\ fgz fl = 0%N /\ fdir fl = false)
+  /\ (forall i, lo <= i < mid -> lookup f (rname c i) = None /\
+        exists fl, file_of f (gname c i) = Some fl /\ fdata fl = nth i closed [] /\ fgz fl = 1%N /\ fdir fl = false)
+  /\ (forall i, i < lo -> lookup f (rname c i) = None /\ lookup f (gname c i) = None)
+  /\ written ops = concat (firstn lo closed) ++ concat (map (fun i => data_at f (entry c mid i)) (seq lo (S L - lo)))
+  /\ lookup f (gname c L) = None
+  /\ (exists fl, file_of f (rname c L) = Some fl /\ fdata fl = cur /\ fgz fl = 0%N /\ fdir fl = false).
+Proof. exact (numbersdirect_cleanup c crit k n m t0 off ops closed cur). Qed.
+
+(* ... where `closed`, `cur` are what the same history leaves without cleanup: the files r<0> .. r<L> *)
+Theorem C07_numbersdirect_cleanup_vs_never c crit k t0 off ops :
+  numdkcfg c crit k -> Forall basic_op ops ->
+  let a := a_run None ops (snd (run (fst (step (sys0 t0 off) (OStart c))) ops)) in
+  dside c k (nclosed a) ->
+  let f0 := wfs (s_w (fst (run (sys0 t0 off) (OStart (never_cfg_d c crit) :: ops ++ [OStop])))) in
+  numdcfg (never_cfg_d c crit) crit
+  /\ match a with
+     | None => names f0 = []
+     | Some (closed, cur) => direct_view c f0 (closed ++ [cur])
+     end.
+Proof. exact (numbersdirect_cleanup_vs_never c crit k t0 off ops). Qed.
+
+(* ... and no operation of the history fails or panics *)
+Theorem C07_numbersdirect_cleanup_no_panic c crit k t0 off ops :
+  numdkcfg c crit k -> Forall basic_op ops ->
+  dside c k (nclosed (a_run None ops (snd (run (fst (step (sys0 t0 off) (OStart c))) ops)))) ->
+  Forall obs_ok (snd (run (sys0 t0 off) (OStart c :: ops ++ [OStop]))).
+Proof. exact (numbersdirect_cleanup_no_panic c crit k t0 off ops). Qed.
+
+Check C07_numbersdirect_cleanup. Check C07_numbersdirect_cleanup_vs_never. Check C07_numbersdirect_cleanup_no_panic.
+Print Assumptions C07_numbersdirect_cleanup.
+Print Assumptions C07_numbersdirect_cleanup_vs_never.
+Print Assumptions C07_numbersdirect_cleanup_no_panic.
